@@ -12,6 +12,8 @@ import Mathlib.Tactic.FieldSimp
 import Mathlib.Tactic.Linarith
 import Mathlib.Tactic.Positivity
 import Mathlib.Tactic.NormNum
+import Mathlib.Tactic.Push
+import Mathlib.Algebra.BigOperators.Group.List.Basic
 
 namespace PolyplyVerif.Proofs.Templates
 open PolyplyVerif.Rot PolyplyVerif.Templ PolyplyVerif.Proofs.Rotation
@@ -322,31 +324,34 @@ theorem rabs_eq_abs (q : Rat) : rabs q = |q| := by
   · rw [abs_of_neg (by assumption)]
   · rw [abs_of_nonneg (by linarith)]
 
-/-- one item: `¬ W·d² > W·tol²` with `W > 0`, `tol ≥ 0` gives `|d| ≤ tol` -/
-theorem within_of_not_gt (W tol d : Rat) (hW : 0 < W) (htol : 0 ≤ tol)
-    (h : ¬ (W * (d * d) > W * (tol * tol))) : |d| ≤ tol := by
-  have h1 : W * (d * d) ≤ W * (tol * tol) := not_lt.mp h
-  have h2 : d * d ≤ tol * tol := le_of_mul_le_mul_left h1 hW
-  exact abs_le_of_sq_le_sq' (by nlinarith) htol |>.2 |> fun _ => by
-    rcases abs_le_of_sq_le_sq' (by nlinarith : d ^ 2 ≤ tol ^ 2) htol with ⟨hl, hr⟩
-    exact abs_le.mpr ⟨hl, hr⟩
+/-- one item: `¬ Wp·d² > Wt·tol²` with `0 < Wp`, `Wt ≤ Wp`, `tol ≥ 0` gives `|d| ≤ tol` -/
+theorem within_of_not_gt (Wp Wt tol d : Rat) (hW : 0 < Wp) (hle : Wt ≤ Wp) (htol : 0 ≤ tol)
+    (h : ¬ (Wp * (d * d) > Wt * (tol * tol))) : |d| ≤ tol := by
+  have h1 : Wp * (d * d) ≤ Wt * (tol * tol) := not_lt.mp h
+  have h1' : Wp * (d * d) ≤ Wp * (tol * tol) :=
+    le_trans h1 (mul_le_mul_of_nonneg_right hle (mul_self_nonneg tol))
+  have h2 : d * d ≤ tol * tol := le_of_mul_le_mul_left h1' hW
+  rcases abs_le_of_sq_le_sq' (by nlinarith : d ^ 2 ≤ tol ^ 2) htol with ⟨hl, hr⟩
+  exact abs_le.mpr ⟨hl, hr⟩
 
-theorem verdict_within (weights tolerance : List (String × Rat)) (items : List Item)
-    (hpos : ∀ it ∈ items, 0 < lookupD weights it.kind ∧ 0 ≤ lookupD tolerance it.kind)
-    (h : verdict weights tolerance items = true) : withinTolerance tolerance items = true := by
+theorem verdict_within (weights tolerance : List (String × Rat)) (methods wkey : List (String × String))
+    (items : List Item)
+    (hpos : ∀ it ∈ items, 0 < penaltyWeight weights methods wkey it.kind ∧
+      lookupD weights it.kind ≤ penaltyWeight weights methods wkey it.kind ∧ 0 ≤ lookupD tolerance it.kind)
+    (h : verdict weights tolerance methods wkey items = true) : withinTolerance tolerance items = true := by
   unfold verdict at h
   unfold withinTolerance
   rw [List.all_eq_true] at h ⊢
   intro it hit
   have hv := h it hit
-  obtain ⟨hW, htol⟩ := hpos it hit
+  obtain ⟨hW, hle, htol⟩ := hpos it hit
   by_cases hd : (it.kind = "dihedrals" && !it.improper) = true
   · simp [hd]
   · have hd' : (it.kind = "dihedrals" && !it.improper) = false := by simpa using hd
     simp only [hd', Bool.false_or, decide_eq_true_eq]
     simp only [penalty, hd', Bool.false_eq_true, if_false, Bool.not_eq_true', decide_eq_false_iff_not] at hv
     rw [rabs_eq_abs]
-    exact within_of_not_gt _ _ _ hW htol hv
+    exact within_of_not_gt _ _ _ _ hW hle htol hv
 
 end verdict
 
@@ -430,5 +435,730 @@ theorem computeVolume_positive (thr : Rat) (atoms : List VolAtom) (hrad : ∀ a 
         exact hrad a ha
 
 end volume
+
+/-! ### bookkeeping: grouping, generation, precedence -/
+
+section book
+variable {K : Type} [Field K] {G : Type}
+
+theorem has_update_of_has {β : Type} (d src : Dict β) (k : String) (h : d.has k = true) :
+    (d.update src).has k = true := by
+  unfold Dict.update
+  induction src generalizing d with
+  | nil => exact h
+  | cons kv src ih => exact ih _ (has_set_of_has d kv.1 k kv.2 h)
+
+/-- every size once stored under a key stays under that key; `Inv`: every templated key has a size -/
+def Inv (st : GTState K) : Prop := ∀ k, st.templates.has k = true → st.volumes.has k = true
+
+theorem genTemplates_spec (gen : String → G → Generated K) (tg : List (String × Option G))
+    (st st' : GTState K) (h : genTemplates gen st tg = some st') :
+    (∀ k, st.templates.has k = true → st'.templates.get? k = st.templates.get? k) ∧
+    (∀ k, st.templates.has k = true → st'.volumes.get? k = st.volumes.get? k) ∧
+    (∀ k, (∀ kg ∈ tg, kg.1 ≠ k) → st'.volumes.get? k = st.volumes.get? k) ∧
+    (∀ k, st.volumes.has k = true → st'.volumes.has k = true) ∧
+    (∀ kg ∈ tg, st'.templates.has kg.1 = true) ∧
+    (Inv st → Inv st') := by
+  induction tg generalizing st with
+  | nil =>
+    simp only [genTemplates, Option.some.injEq] at h
+    subst h
+    exact ⟨fun _ _ => rfl, fun _ _ => rfl, fun _ _ => rfl, fun _ hk => hk, fun _ hkg => by simp at hkg, id⟩
+  | cons kg tg ih =>
+    obtain ⟨gh, g⟩ := kg
+    simp only [genTemplates] at h
+    by_cases hhas : st.templates.has gh = true
+    · rw [if_pos hhas] at h
+      obtain ⟨h1, h2, h3, h4, h5, h6⟩ := ih st h
+      refine ⟨h1, h2, fun k hk => h3 k (fun kg hkg => hk kg (by simp [hkg])), h4, ?_, h6⟩
+      intro kg hkg
+      simp only [List.mem_cons] at hkg
+      rcases hkg with rfl | hkg
+      · have := h1 gh hhas
+        rw [has_iff_get?] at hhas ⊢
+        obtain ⟨v, hv⟩ := hhas
+        exact ⟨v, by rw [this, hv]⟩
+      · exact h5 kg hkg
+    · rw [if_neg hhas] at h
+      cases g with
+      | none => simp at h
+      | some g =>
+        simp only at h
+        obtain ⟨h1, h2, h3, h4, h5, h6⟩ := ih _ h
+        have hne : ∀ k, st.templates.has k = true → k ≠ gh := by
+          intro k hk e; subst e; exact hhas hk
+        refine ⟨?_, ?_, ?_, ?_, ?_, ?_⟩
+        · intro k hk
+          rw [h1 k (has_set_of_has _ _ _ _ hk), get?_set, if_neg (hne k hk)]
+        · intro k hk
+          rw [h2 k (has_set_of_has _ _ _ _ hk), get?_set, if_neg (hne k hk)]
+        · intro k hk
+          rw [h3 k (fun kg hkg => hk kg (by simp [hkg])), get?_set,
+            if_neg (fun e => hk (gh, some g) (by simp) e.symm)]
+        · intro k hk
+          exact h4 k (has_set_of_has _ _ _ _ hk)
+        · intro kg hkg
+          simp only [List.mem_cons] at hkg
+          rcases hkg with rfl | hkg
+          · have hs : (st.templates.set gh (mapFromCoG (gen gh g).coords)).has gh = true := has_set_self _ _ _
+            have := h1 gh hs
+            rw [has_iff_get?] at hs ⊢
+            obtain ⟨v, hv⟩ := hs
+            exact ⟨v, by rw [this, hv]⟩
+          · exact h5 kg hkg
+        · intro hinv
+          apply h6
+          intro k hk
+          rw [has_set] at hk ⊢
+          by_cases e : k = gh
+          · simp [e]
+          · simp only [e, decide_false, Bool.false_or] at hk ⊢
+            exact hinv k hk
+
+theorem groupResiduesByHash_spec (h : G → String) (nodes : List (ResNode G)) (unique : Dict (Option G)) :
+    (groupResiduesByHash h nodes unique).2 = nodes.map (fun n => h n.graph) ∧
+    (∀ k, unique.has k = true → (groupResiduesByHash h nodes unique).1.has k = true) ∧
+    (∀ n ∈ nodes, (groupResiduesByHash h nodes unique).1.has (h n.graph) = true) := by
+  induction nodes generalizing unique with
+  | nil => exact ⟨rfl, fun _ hk => hk, fun _ hn => by simp at hn⟩
+  | cons n nodes ih =>
+    simp only [groupResiduesByHash]
+    set unique' := if unique.has (h n.graph) = true then unique else unique.set (h n.graph) (some n.graph) with hu
+    obtain ⟨i1, i2, i3⟩ := ih unique'
+    have hmono : ∀ k, unique.has k = true → unique'.has k = true := by
+      intro k hk
+      rw [hu]; split
+      · exact hk
+      · exact has_set_of_has _ _ _ _ hk
+    have hself : unique'.has (h n.graph) = true := by
+      rw [hu]; split
+      · assumption
+      · exact has_set_self _ _ _
+    refine ⟨by simp [i1], fun k hk => i2 k (hmono k hk), ?_⟩
+    intro n' hn'
+    simp only [List.mem_cons] at hn'
+    rcases hn' with rfl | hn'
+    · exact i2 _ hself
+    · exact i3 n' hn'
+
+theorem extractSkipFilter_attrs (h : G → String) (nodes : List (ResNode G)) (tg : Dict (Option G)) :
+    (extractSkipFilter h nodes tg).2 = nodes.map (fun n => h n.graph) := by
+  induction nodes generalizing tg with
+  | nil => rfl
+  | cons n nodes ih => simp only [extractSkipFilter, ih, List.map_cons]
+
+theorem extract_attrs (h : G → String) (sf : Bool) (nodes : List (ResNode G)) (tg : Dict (Option G)) :
+    (extractTemplateGraphs h sf nodes tg).2 = nodes.map (fun n => h n.graph) := by
+  unfold extractTemplateGraphs
+  cases sf
+  · exact (groupResiduesByHash_spec h nodes tg).1
+  · exact extractSkipFilter_attrs h nodes tg
+
+/-- what one `run_molecule` guarantees -/
+theorem runMolecule_spec (h : G → String) (gen : String → G → Generated K) (sf : Bool) (st st' : GTState K)
+    (m : Mol G K) (attrs : List String) (hrun : runMolecule h gen sf st m = some (st', attrs)) :
+    attrs = m.nodes.map (fun n => h n.graph) ∧
+    (∀ k, st.templates.has k = true → st'.templates.has k = true) ∧
+    (∀ k, st.volumes.has k = true → st'.volumes.has k = true) ∧
+    (∀ k, st.templates.has k = true → st'.volumes.get? k = st.volumes.get? k) ∧
+    (sf = false → ∀ n ∈ m.nodes, st'.templates.has (h n.graph) = true) ∧
+    (Inv st → (∀ k, (m.userTemplates.getD []).has k = true → st.volumes.has k = true) → Inv st') ∧
+    (∀ U, m.userTemplates = some U → U.keys.Nodup → ∀ k T, U.get? k = some T → st'.templates.get? k = some T) := by
+  unfold runMolecule at hrun
+  simp only at hrun
+  set user := m.userTemplates.getD [] with huser
+  set tg0 : Dict (Option G) := user.map fun kv => (kv.1, none) with htg0
+  set st1 : GTState K := { st with templates := st.templates.update user } with hst1
+  have hattrs := extract_attrs h sf m.nodes tg0
+  cases hex : extractTemplateGraphs h sf m.nodes tg0 with
+  | mk tg attrs0 =>
+    rw [hex] at hrun hattrs
+    simp only at hrun hattrs
+    cases hg : genTemplates gen st1 tg with
+    | none => rw [hg] at hrun; simp at hrun
+    | some st2 =>
+      rw [hg] at hrun
+      simp only [Option.some.injEq, Prod.mk.injEq] at hrun
+      obtain ⟨rfl, rfl⟩ := hrun
+      obtain ⟨g1, g2, g3, g4, g5, g6⟩ := genTemplates_spec gen tg st1 st2 hg
+      have hup : ∀ k, st.templates.has k = true → st1.templates.has k = true :=
+        fun k hk => has_update_of_has _ _ _ hk
+      refine ⟨hattrs, ?_, ?_, ?_, ?_, ?_, ?_⟩
+      · intro k hk
+        have := g1 k (hup k hk)
+        have h1 := hup k hk
+        rw [has_iff_get?] at h1 ⊢
+        obtain ⟨v, hv⟩ := h1
+        exact ⟨v, by rw [this, hv]⟩
+      · intro k hk; exact g4 k hk
+      · intro k hk; exact g2 k (hup k hk)
+      · intro hsf n hn
+        subst hsf
+        have : tg = (groupResiduesByHash h m.nodes tg0).1 := by
+          have := congrArg Prod.fst hex
+          simpa [extractTemplateGraphs] using this.symm
+        have hk := (groupResiduesByHash_spec h m.nodes tg0).2.2 n hn
+        rw [← this] at hk
+        -- a key of tg has a template afterwards
+        obtain ⟨v, hv⟩ := (has_iff_get? tg _).1 hk
+        have hmem : ∃ kg ∈ tg, kg.1 = h n.graph := by
+          clear hk hex this g1 g2 g3 g4 g5 g6 hg
+          induction tg with
+          | nil => simp [Dict.get?] at hv
+          | cons kv tg ih =>
+            obtain ⟨k0, v0⟩ := kv
+            by_cases e : k0 = h n.graph
+            · exact ⟨(k0, v0), by simp, e⟩
+            · simp only [Dict.get?, e, if_false] at hv
+              obtain ⟨kg, hkg, hk⟩ := ih hv
+              exact ⟨kg, by simp [hkg], hk⟩
+        obtain ⟨kg, hkg, hk'⟩ := hmem
+        rw [← hk']; exact g5 kg hkg
+      · intro hinv hvol
+        apply g6
+        intro k hk
+        -- a key of the updated templates was a key before or is a user key
+        by_cases hold : st.templates.has k = true
+        · exact hinv k hold
+        · have hold' : st.templates.has k = false := by simpa using hold
+          by_cases hu : user.has k = true
+          · exact hvol k hu
+          · have hu' : user.has k = false := by simpa using hu
+            have := get?_update st.templates user k hu'
+            simp only [hst1] at hk
+            rw [Dict.has, this] at hk
+            rw [Dict.has] at hold'
+            rw [hold'] at hk
+            exact absurd hk (by simp)
+      · intro U hU hnd k T hT
+        have huU : user = U := by simp [huser, hU]
+        have h1 : st1.templates.get? k = some T := by
+          simp only [hst1, huU]
+          exact get?_update_of_mem _ U hnd k T hT
+        rw [g1 k ((has_iff_get? _ _).2 ⟨T, h1⟩), h1]
+
+end book
+
+section system
+variable {K : Type} [Field K] {G : Type}
+
+/-- `run_system`, non-`skip_filter` grouping: template attributes are the hashes; every residue's hash has a
+template and a size in the final state -/
+theorem runSystem_covers (h : G → String) (gen : String → G → Generated K) (ms : List (Mol G K))
+    (st fin : GTState K) (attrs : List (List String))
+    (hinv : Inv st)
+    (huser : ∀ m ∈ ms, ∀ k, (m.userTemplates.getD []).has k = true → st.volumes.has k = true)
+    (hrun : runSystem h gen false st ms = some (fin, attrs)) :
+    attrs = ms.map (fun m => m.nodes.map (fun n => h n.graph)) ∧
+    Inv fin ∧
+    (∀ k, st.templates.has k = true → fin.templates.has k = true) ∧
+    (∀ k, st.volumes.has k = true → fin.volumes.has k = true) ∧
+    (∀ m ∈ ms, ∀ n ∈ m.nodes, fin.templates.has (h n.graph) = true ∧ fin.volumes.has (h n.graph) = true) := by
+  induction ms generalizing st attrs with
+  | nil =>
+    simp only [runSystem, Option.some.injEq, Prod.mk.injEq] at hrun
+    obtain ⟨rfl, rfl⟩ := hrun
+    exact ⟨rfl, hinv, fun _ hk => hk, fun _ hk => hk, fun _ hm => by simp at hm⟩
+  | cons m ms ih =>
+    simp only [runSystem] at hrun
+    cases hm : runMolecule h gen false st m with
+    | none => rw [hm] at hrun; simp at hrun
+    | some r =>
+      obtain ⟨st', a⟩ := r
+      rw [hm] at hrun
+      simp only at hrun
+      cases hr : runSystem h gen false st' ms with
+      | none => rw [hr] at hrun; simp at hrun
+      | some r2 =>
+        obtain ⟨fin', more⟩ := r2
+        rw [hr] at hrun
+        simp only [Option.some.injEq, Prod.mk.injEq] at hrun
+        obtain ⟨rfl, rfl⟩ := hrun
+        obtain ⟨m1, m2, m3, _, m5, m6, _⟩ := runMolecule_spec h gen false st st' m a hm
+        have hinv' : Inv st' := m6 hinv (huser m (by simp))
+        obtain ⟨i1, i2, i3, i4, i5⟩ := ih st' more hinv'
+          (fun m' hm' k hk => m3 k (huser m' (by simp [hm']) k hk)) hr
+        refine ⟨by simp [m1, i1], i2, fun k hk => i3 k (m2 k hk), fun k hk => i4 k (m3 k hk), ?_⟩
+        intro m' hm' n hn
+        simp only [List.mem_cons] at hm'
+        rcases hm' with rfl | hm'
+        · have ht := i3 _ (m5 rfl n hn)
+          exact ⟨ht, i2 _ ht⟩
+        · exact i5 m' hm' n hn
+
+/-- template attributes are the hashes for both values of `skip_filter` -/
+theorem runSystem_attrs (h : G → String) (gen : String → G → Generated K) (sf : Bool) (ms : List (Mol G K))
+    (st fin : GTState K) (attrs : List (List String)) (hrun : runSystem h gen sf st ms = some (fin, attrs)) :
+    attrs = ms.map (fun m => m.nodes.map (fun n => h n.graph)) := by
+  induction ms generalizing st attrs with
+  | nil =>
+    simp only [runSystem, Option.some.injEq, Prod.mk.injEq] at hrun
+    obtain ⟨_, rfl⟩ := hrun; rfl
+  | cons m ms ih =>
+    simp only [runSystem] at hrun
+    cases hm : runMolecule h gen sf st m with
+    | none => rw [hm] at hrun; simp at hrun
+    | some r =>
+      obtain ⟨st', a⟩ := r
+      rw [hm] at hrun
+      simp only at hrun
+      cases hr : runSystem h gen sf st' ms with
+      | none => rw [hr] at hrun; simp at hrun
+      | some r2 =>
+        obtain ⟨fin', more⟩ := r2
+        rw [hr] at hrun
+        simp only [Option.some.injEq, Prod.mk.injEq] at hrun
+        obtain ⟨rfl, rfl⟩ := hrun
+        simp [(runMolecule_spec h gen sf st st' m a hm).1, ih st' more hr]
+
+/-- user templates win: when every molecule carries the build file's templates `U`, the final templates
+give every key of `U` exactly `U`'s value -/
+theorem runSystem_user_templates (h : G → String) (gen : String → G → Generated K) (sf : Bool)
+    (U : Dict (Template K)) (hnd : U.keys.Nodup) (ms : List (Mol G K)) (hne : ms ≠ [])
+    (hU : ∀ m ∈ ms, m.userTemplates = some U)
+    (st fin : GTState K) (attrs : List (List String)) (hrun : runSystem h gen sf st ms = some (fin, attrs)) :
+    ∀ k T, U.get? k = some T → fin.templates.get? k = some T := by
+  induction ms generalizing st attrs with
+  | nil => exact absurd rfl hne
+  | cons m ms ih =>
+    simp only [runSystem] at hrun
+    cases hm : runMolecule h gen sf st m with
+    | none => rw [hm] at hrun; simp at hrun
+    | some r =>
+      obtain ⟨st', a⟩ := r
+      rw [hm] at hrun
+      simp only at hrun
+      cases hr : runSystem h gen sf st' ms with
+      | none => rw [hr] at hrun; simp at hrun
+      | some r2 =>
+        obtain ⟨fin', more⟩ := r2
+        rw [hr] at hrun
+        simp only [Option.some.injEq, Prod.mk.injEq] at hrun
+        obtain ⟨rfl, rfl⟩ := hrun
+        by_cases hms : ms = []
+        · subst hms
+          simp only [runSystem, Option.some.injEq, Prod.mk.injEq] at hr
+          obtain ⟨rfl, _⟩ := hr
+          exact (runMolecule_spec h gen sf st st' m a hm).2.2.2.2.2.2 U (hU m (by simp)) hnd
+        · exact ih hms (fun m' hm' => hU m' (by simp [hm'])) st' more hr
+
+/-- a size stored under a key that has a template never changes again -/
+theorem runSystem_size_fixed (h : G → String) (gen : String → G → Generated K) (sf : Bool) (ms : List (Mol G K))
+    (st fin : GTState K) (attrs : List (List String)) (hrun : runSystem h gen sf st ms = some (fin, attrs))
+    (k : String) (hk : st.templates.has k = true) : fin.volumes.get? k = st.volumes.get? k := by
+  induction ms generalizing st attrs with
+  | nil =>
+    simp only [runSystem, Option.some.injEq, Prod.mk.injEq] at hrun
+    obtain ⟨rfl, _⟩ := hrun; rfl
+  | cons m ms ih =>
+    simp only [runSystem] at hrun
+    cases hm : runMolecule h gen sf st m with
+    | none => rw [hm] at hrun; simp at hrun
+    | some r =>
+      obtain ⟨st', a⟩ := r
+      rw [hm] at hrun
+      simp only at hrun
+      cases hr : runSystem h gen sf st' ms with
+      | none => rw [hr] at hrun; simp at hrun
+      | some r2 =>
+        obtain ⟨fin', more⟩ := r2
+        rw [hr] at hrun
+        simp only [Option.some.injEq, Prod.mk.injEq] at hrun
+        obtain ⟨rfl, rfl⟩ := hrun
+        obtain ⟨_, m2, _, m4, _, _, _⟩ := runMolecule_spec h gen sf st st' m a hm
+        rw [ih st' more hr (m2 k hk), m4 k hk]
+
+/-- the generation step: a residue name with a user size hands that size to the hash being generated, and
+it stays -/
+theorem genTemplates_user_volume (gen : String → G → Generated K) (st st' : GTState K) (gh : String) (g : G)
+    (rest : List (String × Option G)) (v : K)
+    (hnew : st.templates.has gh = false) (hv : st.volumes.get? (gen gh g).resname = some v)
+    (h : genTemplates gen st ((gh, some g) :: rest) = some st') :
+    st'.volumes.get? gh = some v ∧ st'.templates.get? gh = some (mapFromCoG (gen gh g).coords) := by
+  simp only [genTemplates, hnew, Bool.false_eq_true, if_false, hv] at h
+  obtain ⟨h1, h2, _, _, _, _⟩ := genTemplates_spec gen rest _ st' h
+  have hs : (st.templates.set gh (mapFromCoG (gen gh g).coords)).has gh = true := has_set_self _ _ _
+  constructor
+  · rw [h2 gh hs, get?_set]; simp
+  · rw [h1 gh hs, get?_set]; simp
+
+/-- … and without a user size it gets the size computed from its own coordinates -/
+theorem genTemplates_own_volume (gen : String → G → Generated K) (st st' : GTState K) (gh : String) (g : G)
+    (rest : List (String × Option G))
+    (hnew : st.templates.has gh = false) (hv : st.volumes.get? (gen gh g).resname = none)
+    (h : genTemplates gen st ((gh, some g) :: rest) = some st') :
+    st'.volumes.get? gh = some (gen gh g).volume := by
+  simp only [genTemplates, hnew, Bool.false_eq_true, if_false, hv] at h
+  obtain ⟨_, h2, _, _, _, _⟩ := genTemplates_spec gen rest _ st' h
+  have hs : (st.templates.set gh (mapFromCoG (gen gh g).coords)).has gh = true := has_set_self _ _ _
+  rw [h2 gh hs, get?_set]; simp
+
+omit [Field K] in
+/-- `BuildDirector.finalize`: the user's size of a residue name reaches the hash of the user's template of
+that name and stays available under the name (no hash of the build file is itself a residue name of it) -/
+theorem rekeyVolumes_spec (vols : Dict K) (r2h : Dict String)
+    (hdisj : ∀ rh ∈ r2h, ∀ rh' ∈ r2h, rh.2 ≠ rh'.1) :
+    (∀ rh ∈ r2h, (rekeyVolumes vols r2h).get? rh.1 = vols.get? rh.1) ∧
+    (∀ rh ∈ r2h, ∀ v, vols.get? rh.1 = some v →
+      (∀ rh' ∈ r2h, rh'.2 = rh.2 → vols.get? rh'.1 = some v ∨ vols.get? rh'.1 = none) →
+      (rekeyVolumes vols r2h).get? rh.2 = some v) := by
+  unfold rekeyVolumes
+  -- generalise: fold over a suffix `l` of the list, names keep their value in the accumulator
+  have key : ∀ (l : Dict String) (acc : Dict K),
+      (∀ rh ∈ l, ∀ rh' ∈ r2h, rh.2 ≠ rh'.1) →
+      (∀ rh' ∈ r2h, acc.get? rh'.1 = vols.get? rh'.1) →
+      (∀ rh' ∈ r2h, (l.foldl (fun vs rh => match vs.get? rh.1 with
+          | some v => vs.set rh.2 v | none => vs) acc).get? rh'.1 = vols.get? rh'.1) ∧
+      (∀ H v, (acc.get? H = some v ∨ ∃ rh ∈ l, rh.2 = H ∧ vols.get? rh.1 = some v) →
+        (∀ rh ∈ l, rh.2 = H → vols.get? rh.1 = some v ∨ vols.get? rh.1 = none) →
+        (∀ rh ∈ l, rh ∈ r2h) →
+        (l.foldl (fun vs rh => match vs.get? rh.1 with
+          | some v => vs.set rh.2 v | none => vs) acc).get? H = some v) := by
+    intro l
+    induction l with
+    | nil =>
+      intro acc _ hacc
+      refine ⟨fun rh' hrh' => hacc rh' hrh', ?_⟩
+      intro H v hH _ _
+      rcases hH with hH | ⟨rh, hrh, _⟩
+      · exact hH
+      · simp at hrh
+    | cons rh l ih =>
+      intro acc hd hacc
+      simp only [List.foldl_cons]
+      set acc' := (match acc.get? rh.1 with | some v => acc.set rh.2 v | none => acc) with hacc'
+      have hacc'_names : ∀ rh' ∈ r2h, acc'.get? rh'.1 = vols.get? rh'.1 := by
+        intro rh' hrh'
+        rw [hacc']
+        cases hg : acc.get? rh.1 with
+        | none => exact hacc rh' hrh'
+        | some v =>
+          simp only
+          rw [get?_set, if_neg (fun e => hd rh (by simp) rh' hrh' e.symm)]
+          exact hacc rh' hrh'
+      obtain ⟨i1, i2⟩ := ih acc' (fun x hx => hd x (by simp [hx])) hacc'_names
+      refine ⟨i1, ?_⟩
+      intro H v hH hsame hsub
+      apply i2 H v ?_ (fun x hx => hsame x (by simp [hx])) (fun x hx => hsub x (by simp [hx]))
+      have hrh_mem : rh ∈ r2h := hsub rh (by simp)
+      -- value of H in acc'
+      by_cases hH2 : rh.2 = H
+      · -- this entry writes H (if the name has a size)
+        have hname := hacc rh hrh_mem
+        rcases hsame rh (by simp) hH2 with hv | hn
+        · left
+          rw [hacc']
+          rw [hname, hv]
+          simp only
+          rw [get?_set]; simp [hH2]
+        · -- the name has no size: acc unchanged
+          have : acc' = acc := by rw [hacc', hname, hn]
+          rw [this]
+          rcases hH with hH | ⟨x, hx, hxH, hxv⟩
+          · left; exact hH
+          · simp only [List.mem_cons] at hx
+            rcases hx with rfl | hx
+            · rw [hn] at hxv; cases hxv
+            · right; exact ⟨x, hx, hxH, hxv⟩
+      · rcases hH with hH | ⟨x, hx, hxH, hxv⟩
+        · left
+          rw [hacc']
+          cases hg : acc.get? rh.1 with
+          | none => exact hH
+          | some w =>
+            simp only
+            rw [get?_set, if_neg (fun e => hH2 e.symm)]; exact hH
+        · simp only [List.mem_cons] at hx
+          rcases hx with rfl | hx
+          · exact absurd hxH hH2
+          · right; exact ⟨x, hx, hxH, hxv⟩
+  obtain ⟨k1, k2⟩ := key r2h vols (fun rh hrh rh' hrh' => hdisj rh hrh rh' hrh') (fun _ _ => rfl)
+  refine ⟨k1, ?_⟩
+  intro rh hrh v hv hsame
+  exact k2 rh.2 v (Or.inr ⟨rh, hrh, rfl, hv⟩) (fun x hx hxe => hsame x hx hxe) (fun _ hx => hx)
+
+end system
+
+/-! ### the size is positive (full statement, exact arithmetic) -/
+
+section sizepos
+
+theorem normSq_pos_of_ne {v : V3 Rat} (h : v ≠ 0) : 0 < V3.normSq v := by
+  have hne : v.x ≠ 0 ∨ v.y ≠ 0 ∨ v.z ≠ 0 := by
+    by_contra hc
+    push Not at hc
+    apply h
+    ext <;> simp [hc.1, hc.2.1, hc.2.2]
+  unfold V3.normSq V3.dot
+  rcases hne with hx | hy | hz
+  · have := mul_self_pos.mpr hx
+    nlinarith [mul_self_nonneg v.y, mul_self_nonneg v.z]
+  · have := mul_self_pos.mpr hy
+    nlinarith [mul_self_nonneg v.x, mul_self_nonneg v.z]
+  · have := mul_self_pos.mpr hz
+    nlinarith [mul_self_nonneg v.x, mul_self_nonneg v.y]
+
+theorem inner_ge (pts : List (V3 Rat)) (i : V3 Rat) (acc : Rat) :
+    acc ≤ pts.foldl (fun acc j => acc + V3.normSq (i - j)) acc := by
+  induction pts generalizing acc with
+  | nil => exact le_rfl
+  | cons b l ih => exact le_trans (le_add_of_nonneg_right (normSq_nonneg _)) (ih _)
+
+theorem inner_mem (pts : List (V3 Rat)) (i j : V3 Rat) (acc : Rat) (hj : j ∈ pts) (hacc : 0 ≤ acc) :
+    V3.normSq (i - j) ≤ pts.foldl (fun acc j => acc + V3.normSq (i - j)) acc := by
+  induction pts generalizing acc with
+  | nil => simp at hj
+  | cons b l ih =>
+    simp only [List.mem_cons] at hj
+    simp only [List.foldl_cons]
+    rcases hj with rfl | hj
+    · exact le_trans (le_add_of_nonneg_left hacc) (inner_ge l i _)
+    · exact ih _ hj (add_nonneg hacc (normSq_nonneg _))
+
+theorem outer_ge (pts l : List (V3 Rat)) (acc : Rat) :
+    acc ≤ l.foldl (fun acc i => pts.foldl (fun acc j => acc + V3.normSq (i - j)) acc) acc := by
+  induction l generalizing acc with
+  | nil => exact le_rfl
+  | cons b l ih => exact le_trans (inner_ge pts b acc) (ih _)
+
+theorem outer_mem (pts l : List (V3 Rat)) (i j : V3 Rat) (acc : Rat) (hi : i ∈ l) (hj : j ∈ pts) (hacc : 0 ≤ acc) :
+    V3.normSq (i - j) ≤ l.foldl (fun acc i => pts.foldl (fun acc j => acc + V3.normSq (i - j)) acc) acc := by
+  induction l generalizing acc with
+  | nil => simp at hi
+  | cons b l ih =>
+    simp only [List.mem_cons] at hi
+    simp only [List.foldl_cons]
+    rcases hi with rfl | hi
+    · exact le_trans (inner_mem pts i j acc hj hacc) (outer_ge pts l _)
+    · exact ih _ hi (le_trans hacc (inner_ge pts b acc))
+
+/-- two different points ⇒ positive squared radius of gyration -/
+theorem radiusOfGyrationSq_pos (pts : List (V3 Rat)) (i j : V3 Rat) (hi : i ∈ pts) (hj : j ∈ pts) (hne : i ≠ j) :
+    0 < radiusOfGyrationSq pts := by
+  unfold radiusOfGyrationSq
+  have hn : (0 : Rat) < (pts.length : Rat) := by
+    have : 0 < pts.length := List.length_pos_of_mem hi
+    exact_mod_cast this
+  apply mul_pos
+  · positivity
+  · have hd : i - j ≠ 0 := by
+      intro e
+      apply hne
+      have hx := congrArg V3.x e
+      have hy := congrArg V3.y e
+      have hz := congrArg V3.z e
+      simp only [sub_x, sub_y, sub_z, zero_x, zero_y, zero_z] at hx hy hz
+      ext <;> linarith
+    exact lt_of_lt_of_le (normSq_pos_of_ne hd) (outer_mem pts pts i j 0 hi hj le_rfl)
+
+/-- the pushed-out vector of an atom -/
+def pushed (a : VolAtom) : V3 Rat := a.diff + V3.smul a.rad (V3.sdiv a.diff a.nrm)
+
+theorem dot_sum (g : V3 Rat) (l : List (V3 Rat)) : V3.dot (V3.sum l) g = (l.map fun v => V3.dot v g).sum := by
+  induction l with
+  | nil => simp [sum_nil, V3.dot]
+  | cons a l ih =>
+    rw [sum_cons, List.map_cons, List.sum_cons, ← ih]
+    simp only [V3.dot, add_x, add_y, add_z]; ring
+
+theorem sum_pos_of_pos (l : List Rat) (hne : l ≠ []) (h : ∀ x ∈ l, 0 < x) : 0 < l.sum := by
+  induction l with
+  | nil => exact absurd rfl hne
+  | cons a l ih =>
+    rw [List.sum_cons]
+    by_cases hl : l = []
+    · subst hl; simpa using h a (by simp)
+    · exact add_pos (h a (by simp)) (ih hl (fun x hx => h x (by simp [hx])))
+
+/-- what the theorem assumes about the input of `compute_volume`: non-negative threshold, positive self σ,
+`nrm` the genuine norm of `diff`, differences taken from the centre of geometry, at least one atom -/
+structure VolInput (thr : Rat) (atoms : List VolAtom) : Prop where
+  thr_nonneg : 0 ≤ thr
+  rad_pos : ∀ a ∈ atoms, 0 < a.rad
+  nrm_nonneg : ∀ a ∈ atoms, 0 ≤ a.nrm
+  nrm_sq : ∀ a ∈ atoms, a.nrm * a.nrm = V3.normSq a.diff
+  centred : V3.sum (atoms.map (·.diff)) = 0
+  nonempty : atoms ≠ []
+
+theorem pushed_dot (a : VolAtom) (hn : 0 < a.nrm) (hr : 0 < a.rad) (hsq : a.nrm * a.nrm = V3.normSq a.diff) :
+    0 < V3.dot a.diff (pushed a) := by
+  have e : V3.dot a.diff (pushed a) = (1 + a.rad / a.nrm) * V3.normSq a.diff := by
+    simp only [pushed, V3.dot, V3.normSq, add_x, add_y, add_z, smul_x, smul_y, smul_z, sdiv_x, sdiv_y, sdiv_z]
+    ring
+  rw [e, ← hsq]
+  have : 0 < a.rad / a.nrm := div_pos hr hn
+  positivity
+
+theorem pushed_ne_zero (a : VolAtom) (hn : 0 < a.nrm) (hr : 0 < a.rad) (hsq : a.nrm * a.nrm = V3.normSq a.diff) :
+    pushed a ≠ 0 := by
+  intro e
+  have := pushed_dot a hn hr hsq
+  rw [e] at this
+  simp [V3.dot, zero_x, zero_y, zero_z] at this
+
+theorem any_replicate_zero (k : Nat) : ((List.replicate k (0 : V3 Rat)).any fun v => !isZero v) = false := by
+  induction k with
+  | zero => rfl
+  | succ k ih =>
+    rw [List.replicate_succ, List.any_cons, ih]
+    simp [isZero, zero_x, zero_y, zero_z]
+
+theorem isZero_iff (v : V3 Rat) : isZero v = true ↔ v = 0 := by
+  constructor
+  · intro h
+    simp only [isZero, Bool.and_eq_true, beq_iff_eq] at h
+    ext <;> simp [h.1.1, h.1.2, h.2]
+  · intro h; subst h; simp [isZero, zero_x, zero_y, zero_z]
+
+/-- every size `compute_volume` returns for a well-formed input is positive -/
+theorem computeVolume_positive_full (thr : Rat) (atoms : List VolAtom) (hin : VolInput thr atoms) :
+    (computeVolume thr atoms).positive := by
+  rw [computeVolume_eq]
+  set far := atoms.filter fun a => decide (a.nrm > thr) with hfar
+  have hg : geomVects thr atoms = far.map pushed ++ List.replicate (atoms.length - far.length) (0 : V3 Rat) := rfl
+  have hfar_sub : ∀ a ∈ far, a ∈ atoms ∧ a.nrm > thr := by
+    intro a ha
+    rw [hfar, List.mem_filter] at ha
+    exact ⟨ha.1, by simpa using ha.2⟩
+  by_cases hnofar : far = []
+  · -- all atoms on the centre: the largest radius
+    have hany : ((geomVects thr atoms).any fun v => !isZero v) = false := by
+      rw [hg, hnofar]; simp only [List.map_nil, List.nil_append]; exact any_replicate_zero _
+    rw [if_neg (by simp [hany])]
+    have hnear : nearRadii thr atoms = atoms.map (·.rad) := by
+      unfold nearRadii
+      congr 1
+      rw [List.filter_eq_self]
+      intro a ha
+      by_contra hc
+      have : a ∈ far := by
+        rw [hfar, List.mem_filter]
+        exact ⟨ha, by simpa using hc⟩
+      rw [hnofar] at this; simp at this
+    cases hm : maxList (nearRadii thr atoms) with
+    | none =>
+      exfalso
+      have hne := hin.nonempty
+      rw [hnear] at hm
+      cases hatoms : atoms with
+      | nil => exact hne hatoms
+      | cons a l =>
+        rw [hatoms] at hm
+        simp only [List.map_cons, maxList] at hm
+        cases h2 : maxList (l.map (·.rad)) <;> simp [h2] at hm
+    | some m =>
+      show 0 < m
+      have hmem := maxList_mem _ _ hm
+      rw [hnear] at hmem
+      simp only [List.mem_map] at hmem
+      obtain ⟨a, ha, rfl⟩ := hmem
+      exact hin.rad_pos a ha
+  · -- some atom off the centre
+    obtain ⟨a0, ha0⟩ := List.exists_mem_of_ne_nil far hnofar
+    obtain ⟨ha0_in, ha0_far⟩ := hfar_sub a0 ha0
+    have hn0 : 0 < a0.nrm := lt_of_le_of_lt hin.thr_nonneg ha0_far
+    have hg0 : pushed a0 ≠ 0 := pushed_ne_zero a0 hn0 (hin.rad_pos a0 ha0_in) (hin.nrm_sq a0 ha0_in)
+    have hg0_mem : pushed a0 ∈ geomVects thr atoms := by
+      rw [hg]; exact List.mem_append_left _ (List.mem_map_of_mem ha0)
+    have hany : ((geomVects thr atoms).any fun v => !isZero v) = true := by
+      rw [List.any_eq_true]
+      refine ⟨pushed a0, hg0_mem, ?_⟩
+      cases hz : isZero (pushed a0) with
+      | false => rfl
+      | true => exact absurd ((isZero_iff _).1 hz) hg0
+    rw [if_pos hany]
+    show 0 < radiusOfGyrationSq (geomVects thr atoms)
+    by_cases hlen : far.length < atoms.length
+    · -- a zero row exists
+      have hz_mem : (0 : V3 Rat) ∈ geomVects thr atoms := by
+        rw [hg]
+        apply List.mem_append_right
+        rw [List.mem_replicate]
+        exact ⟨by omega, rfl⟩
+      exact radiusOfGyrationSq_pos _ _ _ hg0_mem hz_mem hg0
+    · -- every atom is off the centre
+      have hall : far = atoms := by
+        have hle : far.length ≤ atoms.length := List.length_filter_le _ _
+        have : far.length = atoms.length := by omega
+        rw [hfar] at this ⊢
+        exact List.filter_eq_self.mpr (List.length_filter_eq_length_iff.mp this)
+      by_cases hsame : ∀ a ∈ atoms, pushed a = pushed a0
+      · exfalso
+        have hzero : V3.dot (V3.sum (atoms.map (·.diff))) (pushed a0) = 0 := by
+          rw [hin.centred]; simp [V3.dot, zero_x, zero_y, zero_z]
+        rw [dot_sum, List.map_map] at hzero
+        have hpos : 0 < ((atoms.map ((fun v => V3.dot v (pushed a0)) ∘ fun a => a.diff))).sum := by
+          apply sum_pos_of_pos
+          · simpa using hin.nonempty
+          · intro x hx
+            simp only [List.mem_map, Function.comp] at hx
+            obtain ⟨a, ha, rfl⟩ := hx
+            rw [← hsame a ha]
+            have hafar : a ∈ far := by rw [hall]; exact ha
+            have hna : 0 < a.nrm := lt_of_le_of_lt hin.thr_nonneg (hfar_sub a hafar).2
+            exact pushed_dot a hna (hin.rad_pos a ha) (hin.nrm_sq a ha)
+        rw [hzero] at hpos
+        exact lt_irrefl _ hpos
+      · push Not at hsame
+        obtain ⟨a, ha, hne⟩ := hsame
+        have ha_mem : pushed a ∈ geomVects thr atoms := by
+          rw [hg]; apply List.mem_append_left; apply List.mem_map_of_mem; rw [hall]; exact ha
+        exact radiusOfGyrationSq_pos _ _ _ ha_mem hg0_mem hne
+
+end sizepos
+
+/-! ### the build file leaves a size for every template it supplies -/
+
+section buildfile
+variable {K : Type} [Field K]
+
+theorem rekeyVolumes_has (vols : Dict K) (r2h : Dict String) (k : String) (h : vols.has k = true) :
+    (rekeyVolumes vols r2h).has k = true := by
+  unfold rekeyVolumes
+  induction r2h generalizing vols with
+  | nil => exact h
+  | cons rh l ih =>
+    simp only [List.foldl_cons]
+    apply ih
+    cases vols.get? rh.1 with
+    | none => exact h
+    | some v => exact has_set_of_has _ _ _ _ h
+
+theorem bfFold_inv (ops : List (BfOp K)) (s : BfState K)
+    (hs : ∀ k, s.templates.has k = true → s.volumes.has k = true) :
+    ∀ k, (ops.foldl BfState.step s).templates.has k = true → (ops.foldl BfState.step s).volumes.has k = true := by
+  induction ops generalizing s with
+  | nil => exact hs
+  | cons op ops ih =>
+    simp only [List.foldl_cons]
+    apply ih
+    intro k hk
+    cases op with
+    | volume resname v =>
+      simp only [BfState.step] at hk ⊢
+      exact has_set_of_has _ _ _ _ (hs k hk)
+    | template resname hash coords vol =>
+      simp only [BfState.step] at hk ⊢
+      rw [has_set] at hk
+      by_cases e : k = hash
+      · subst e
+        split
+        · assumption
+        · exact has_set_self _ _ _
+      · simp only [e, decide_false, Bool.false_or] at hk
+        split
+        · exact hs k hk
+        · exact has_set_of_has _ _ _ _ (hs k hk)
+
+/-- after `read_build_file` every template of the build file has a size -/
+theorem readBuildFile_sizes (vols0 : Dict K) (ops : List (BfOp K)) :
+    ∀ k, (readBuildFile vols0 ops).2.has k = true → (readBuildFile vols0 ops).1.has k = true := by
+  intro k hk
+  unfold readBuildFile at hk ⊢
+  simp only at hk ⊢
+  apply rekeyVolumes_has
+  exact bfFold_inv ops ⟨vols0, [], []⟩ (fun k hk => by simp [Dict.has, Dict.get?] at hk) k hk
+
+end buildfile
 
 end PolyplyVerif.Proofs.Templates
